@@ -7,6 +7,10 @@
 //! op `pipeline` : real dictionary + `JoinNumericPlugin`; the model predicts the joined tokens from
 //!                 the un-joined path (same text tokenised by a configuration without the plugin).
 //!
+//! op `modes`    : dictionaries whose numeral WORDS declare A/B split units; the tokenizer in modes C, A, B and
+//!                 `Morpheme::split_into` of the mode-C morphemes; model = `RewriteNumericSplit` (the joiner, then C09's
+//!                 split model on the rewritten path).
+//!
 //! The oracle (`reference`, `Dec`) is independent of the Lean model and of the implementation's
 //! algorithm: it evaluates a numeral by exact decimal arithmetic on digit vectors (sum of
 //! coefficient x power of ten), checks positional non-overlap *by value*, and the separator /
@@ -1610,6 +1614,355 @@ fn pipeline_case(run: &mut Run, dicts: &Dicts, idx: usize, directed: Option<usiz
 }
 
 // ------------------------------------------------------------------------------------------------
+// op modes: numeral WORDS of the dictionary that declare A/B split units (and word structure), alone and inside
+// longer numerals, analysed in modes C, A, B and through Morpheme::split_into
+
+/// (key, A units, B units, stored normalised form or "" = the key); the units are single-character numeral rows or
+/// other rows of this table (二十五 = B 二十/五), referenced by line number; word structure = the A units
+const UNIT_WORDS: &[(&str, &str, &str, &str)] = &[
+    ("二十", "二/十", "二/十", ""),
+    ("百万", "百/万", "百/万", ""),
+    ("三百", "三/百", "*", ""),
+    ("千万", "千/万", "千/万", ""),
+    ("十億", "十/億", "*", ""),
+    ("一万", "一/万", "一/万", ""),
+    ("五千", "五/千", "五/千", ""),
+    ("二十五", "二/十/五", "二十/五", ""),
+    ("三百万", "三/百/万", "三/百万", ""),
+    ("2万", "2/万", "2/万", ""),
+];
+/// numeral words with units whose STORED normalised form already is the decimal rendering (the plugin leaves such a
+/// single node untouched: `end - begin > 1 || normalized_form != word_info.normalized_form()`)
+const CANON_UNIT_WORDS: &[(&str, &str, &str, &str)] = &[("10", "1/0", "1/0", ""), ("0.5", "0/./5", "*", ""), ("１００", "１/０/０", "*", "100")];
+
+const MVAR: usize = 3;
+
+fn lexicon_units(variant: usize) -> Vec<Row> {
+    let mut rows = lexicon(variant % 2);
+    let id_of = |rows: &Vec<Row>, s: &str| -> String { rows.iter().position(|r| r.surface == s).expect("unit row").to_string() };
+    let mut add = |rows: &mut Vec<Row>, w: &(&str, &str, &str, &str)| {
+        let ids = |rows: &Vec<Row>, spec: &str| -> String {
+            if spec == "*" { "*".to_string() } else { spec.split('/').map(|u| id_of(rows, u)).collect::<Vec<_>>().join("/") }
+        };
+        let mut r = Row::simple(w.0, 0, 0, 1200, NUMERAL);
+        r.mode = 'C';
+        r.split_a = ids(rows, w.1);
+        r.split_b = ids(rows, w.2);
+        r.wstruct = ids(rows, w.1);
+        if !w.3.is_empty() {
+            r.norm = w.3.to_string();
+        }
+        rows.push(r);
+    };
+    for w in UNIT_WORDS {
+        add(&mut rows, w);
+    }
+    if variant == 2 {
+        for w in CANON_UNIT_WORDS {
+            add(&mut rows, w);
+        }
+    }
+    rows
+}
+
+struct ModeDicts {
+    _wd: Workdir,
+    plain: Vec<JapaneseDictionary>,
+    with: Vec<[JapaneseDictionary; 2]>, // [enableNormalize=true, key left out]
+    rows: Vec<Vec<Row>>,
+    numeral_pos_id: u16,
+}
+
+impl ModeDicts {
+    fn new() -> Result<ModeDicts, String> {
+        let wd = Workdir::new_legacy("c15m");
+        wd.write("char.def", &char_def());
+        let pos = default_pos();
+        let matrix = Matrix { nl: 1, nr: 1, cells: vec![0] };
+        let (mut plain, mut with, mut rows) = (vec![], vec![], vec![]);
+        for v in 0..MVAR {
+            let rs = lexicon_units(v);
+            let bin = build_system(csv_of(&rs, &pos).as_bytes(), matrix.text().as_bytes())?;
+            let oov = vec![simple_oov_json(0, 0, 20000)];
+            plain.push(load(&config_json(&wd, &[], &oov, &[], &[]), bin.clone(), vec![])?);
+            let explicit = load(&config_json(&wd, &[], &oov, &[r#"{"class":"com.worksap.nlp.sudachi.JoinNumericPlugin","enableNormalize":true}"#.to_string()], &[]), bin.clone(), vec![])?;
+            let implicit = load(&config_json(&wd, &[], &oov, &[r#"{"class":"com.worksap.nlp.sudachi.JoinNumericPlugin"}"#.to_string()], &[]), bin.clone(), vec![])?;
+            with.push([explicit, implicit]);
+            rows.push(rs);
+        }
+        let numeral_pos_id = plain[0].grammar().get_part_of_speech_id(&POS[NUMERAL][..]).ok_or("no numeral POS in the grammar")?;
+        Ok(ModeDicts { _wd: wd, plain, with, rows, numeral_pos_id })
+    }
+}
+
+/// (text, lexicon variant): the unit words alone, at the start / in the middle / at the end of longer numerals, next to
+/// context words, twice in a sentence, inside malformed runs
+const DIRECTED_MODES: &[(&str, usize)] = &[
+    ("百万円", 0), ("二十", 1), ("二十一", 0), ("三百万", 0), ("三百万円と二十人", 1), ("千万", 0), ("五千二十五", 0), ("十億二十", 1),
+    ("1百万", 0), ("二十五万", 0), ("百万二十", 0), ("あ一万個", 1), ("2万5千", 0), ("二十百万", 0), ("百万,二十", 1),
+    ("二十.五", 0), ("3.2万", 0), ("百万円", 2), ("10個", 2), ("0.5個と10", 2), ("１００円", 2), ("１００万", 2), ("10万", 2), ("二十10", 2),
+];
+
+fn gen_modes_text(rng: &mut Rng, variant: usize) -> String {
+    let words: Vec<&str> = UNIT_WORDS.iter().map(|w| w.0).chain(if variant == 2 { CANON_UNIT_WORDS.iter().map(|w| w.0).collect::<Vec<_>>() } else { vec![] }).collect();
+    let numeral = |rng: &mut Rng| -> String {
+        match rng.below(10) {
+            // the word alone
+            0..=2 => rng.pick(&words).to_string(),
+            // the word inside a longer numeral: coefficient / higher part before, lower part after
+            3..=6 => {
+                let mut s = String::new();
+                match rng.below(5) {
+                    0 => s.push(KANJI_DIGITS[rng.range(1, 9)]),
+                    1 => s.push_str(&format!("{}", rng.range(1, 99))),
+                    2 => s.push_str(*rng.pick(&words)),
+                    _ => {}
+                }
+                s.push_str(*rng.pick(&words));
+                match rng.below(6) {
+                    0 => s.push(KANJI_DIGITS[rng.range(1, 9)]),
+                    1 => s.push_str(*rng.pick(&words)),
+                    2 => s.push_str(*rng.pick(&["万", "億", "兆", "千", "百", "十"])),
+                    3 => s.push_str(&format!("{}", rng.range(1, 999))),
+                    _ => {}
+                }
+                s
+            }
+            // value-driven well-formed numerals (kanji renderings contain the words by themselves)
+            7..=8 => {
+                let v = gen_value(rng);
+                render_value(rng, &v).0.chars().take(24).collect()
+            }
+            _ => any_numeral(rng),
+        }
+    };
+    let mut text = String::new();
+    if rng.chance(1, 2) {
+        text.push_str(*rng.pick(CONTEXT));
+    }
+    for k in 0..rng.range(1, 3) {
+        if k > 0 {
+            text.push_str(*rng.pick(CONTEXT));
+        }
+        text.push_str(&numeral(rng));
+    }
+    if rng.chance(2, 3) {
+        text.push_str(*rng.pick(CONTEXT));
+    }
+    text
+}
+
+/// the tokens `Morpheme::split_into(mode)` yields for every morpheme of the mode-C analysis (the morpheme itself when it
+/// reports that nothing was split), and the flags
+fn split_into_all(dic: &JapaneseDictionary, text: &str, mode: Mode) -> Result<Result<(Vec<Tok>, Vec<bool>), String>, String> {
+    catch(|| -> Result<(Vec<Tok>, Vec<bool>), String> {
+        let mut tok = StatefulTokenizer::new(dic, Mode::C);
+        tok.reset().push_str(text);
+        tok.do_tokenize().map_err(|e| err_class(&e))?;
+        let mut ml = sudachi::analysis::mlist::MorphemeList::empty(dic);
+        ml.collect_results(&mut tok).map_err(|e| err_class(&e))?;
+        let whole = toks_of(&ml);
+        let mut out = sudachi::analysis::mlist::MorphemeList::empty(dic);
+        let (mut all, mut flags) = (vec![], vec![]);
+        for i in 0..ml.len() {
+            out.clear();
+            let flag = ml.get(i).split_into(mode, &mut out).map_err(|e| err_class(&e))?;
+            flags.push(flag);
+            if flag {
+                all.extend(toks_of(&out));
+            } else {
+                all.push(whole[i].clone());
+            }
+        }
+        Ok((all, flags))
+    })
+}
+
+fn show_toks(t: &Result<Result<Vec<Tok>, String>, String>) -> String {
+    match t {
+        Err(_) => "PANIC".to_string(),
+        Ok(Err(_)) => "err".to_string(),
+        Ok(Ok(t)) => t.iter().map(|x| format!("{}:{}:{}", x.begin_c, x.end_c, norm_cps(&x.norm))).collect::<Vec<_>>().join(";"),
+    }
+}
+
+fn modes_case(run: &mut Run, dicts: &ModeDicts, idx: usize, directed: Option<usize>) {
+    let mut rng = Rng::for_case(run.opts.seed, idx);
+    let mut variant = rng.below(MVAR);
+    let implicit = rng.chance(1, 4);
+    let mut text = gen_modes_text(&mut rng, variant);
+    if let Some(k) = directed {
+        text = DIRECTED_MODES[k].0.to_string();
+        variant = DIRECTED_MODES[k].1;
+    }
+    let dic = &dicts.with[variant][implicit as usize];
+    let chars: Vec<char> = text.chars().collect();
+    let base = match tokenize(&dicts.plain[variant], &text, Mode::C) {
+        Ok(Ok(t)) => t,
+        _ => {
+            run.bump("modes:base-tokenize-failed");
+            return;
+        }
+    };
+    // the five observations: the tokenizer in modes C, A, B and split_into(A), split_into(B) of the mode-C morphemes
+    let obs: Vec<(&str, Result<Result<Vec<Tok>, String>, String>)> = vec![
+        ("C", tokenize(dic, &text, Mode::C)),
+        ("A", tokenize(dic, &text, Mode::A)),
+        ("B", tokenize(dic, &text, Mode::B)),
+        ("siA", split_into_all(dic, &text, Mode::A).map(|r| r.map(|x| x.0))),
+        ("siB", split_into_all(dic, &text, Mode::B).map(|r| r.map(|x| x.0))),
+    ];
+    // case line (op pipe, answered by the model RewriteNumeric.rewrite): the un-joined path (real ResultNodes with their
+    // split lists), the class masks, the settings -> the mode-C tokens.  The observations in modes A / B and through
+    // split_into are judged by the oracle below and shown in the replay line.
+    let shown = obs.iter().map(|(m, t)| format!("{}={}", m, show_toks(t))).collect::<Vec<_>>().join(" ");
+    let mut line = format!("C15 modes idx={} variant={} implicit={} text={} observed: {}", idx, variant, implicit as u8, cps(&text), shown);
+    match observe_path(&dicts.plain[variant], &text) {
+        Ok(Ok((cat, nodes))) => {
+            let payload = format!(
+                "fix={} nv={} plugin=N:{}:{} cat={} path={}",
+                probe_fixes(), crate::c14::numeric_variant(), if implicit { String::new() } else { "1".to_string() }, dicts.numeral_pos_id,
+                join(cat.iter(), ","), nodes.join(";")
+            );
+            let answer = match &obs[0].1 {
+                Err(_) => "PANIC".to_string(),
+                Ok(Err(_)) => "err".to_string(),
+                Ok(Ok(t)) => format!("ok toks={}", t.iter().map(|x| format!("{}:{}:{}:{}", x.begin_c, x.end_c, x.pos_id, norm_cps(&x.norm))).collect::<Vec<_>>().join(";")),
+            };
+            let joined = matches!(&obs[0].1, Ok(Ok(t)) if t.len() < nodes.len());
+            run.case(idx, "pipe", &payload, &answer, joined);
+            // case line op modes (model RewriteNumericSplit: RewriteNumeric.rewrite, then C09's split model on every node):
+            // additionally the declared lexicon (key byte length, A units, B units, stored normalised form of every row, taken
+            // from the CSV rows, not read back from the binary) and the offset tables of the text -> all five observations
+            let lex = dicts.rows[variant]
+                .iter()
+                .map(|r| {
+                    let sl = |s: &str| if s == "*" { String::new() } else { s.to_string() };
+                    format!("{}:{}:{}:{}", r.surface.len(), sl(&r.split_a), sl(&r.split_b), hex(r.norm.as_bytes()))
+                })
+                .collect::<Vec<_>>()
+                .join(",");
+            let (mut c2b, mut b2c, mut nb) = (vec![], vec![], 0);
+            for (ci, c) in chars.iter().enumerate() {
+                c2b.push(nb);
+                for _ in 0..c.len_utf8() {
+                    b2c.push(ci);
+                }
+                nb += c.len_utf8();
+            }
+            c2b.push(nb);
+            b2c.push(chars.len());
+            let payload2 = format!("{} lex={} b2c={} c2b={}", payload, lex, join(b2c.iter(), ","), join(c2b.iter(), ","));
+            let failed = obs.iter().find_map(|(_, t)| match t { Err(_) => Some("PANIC"), Ok(Err(_)) => Some("err"), _ => None });
+            let answer2 = match failed { Some(f) => f.to_string(), None => format!("ok {}", shown) };
+            let split_seen = matches!((&obs[0].1, &obs[1].1), (Ok(Ok(c)), Ok(Ok(a))) if a.len() > c.len());
+            run.case(idx, "modes", &payload2, &answer2, joined || split_seen);
+            line = format!("{} | C15 modes idx={} {}", line, idx, payload2);
+        }
+        _ => run.bump("modes:observe-failed"),
+    }
+    run.bump("modes:cases");
+    run.bump(if implicit { "modes:enableNormalize-left-out" } else { "modes:enableNormalize-true" });
+    run.bump(&format!("modes:lexicon-variant:{}", variant));
+    // ORACLE (normalisation is enabled in every case of this stream).  A numeral segment = maximal run of symbols of the
+    // numeral alphabet with neutral neighbours; "the dictionary tags it as numerals, not shadowed" = the un-joined tokens tile
+    // it, every one is tagged 名詞,数詞 (or is a separator) and its normalised form reads as the same numeral symbols as its
+    // surface - one-character rows AND the multi-character numeral words with units.  Then, in EVERY observation:
+    //   well-formed  -> exactly one token with the range of the numeral and the decimal rendering as normalised form
+    //   malformed    -> never one token over the whole run with a value (it stays the un-joined pieces)
+    let neutral = |c: char| sym_of(c).is_none() && cat_mask(c) == 0;
+    let segs = segments_of(&chars);
+    for sg in &segs {
+        if (sg.b > 0 && !neutral(chars[sg.b - 1])) || (sg.e < chars.len() && !neutral(chars[sg.e])) {
+            run.bump("modes:segment-touches-numeral");
+            continue;
+        }
+        let inside: Vec<&Tok> = base.iter().filter(|t| t.begin_c < sg.e && t.end_c > sg.b).collect();
+        let tiles = inside.first().map_or(false, |t| t.begin_c == sg.b) && inside.last().map_or(false, |t| t.end_c == sg.e);
+        let numeral_word = |t: &Tok| -> bool {
+            let is_sep = t.norm == "," || t.norm == ".";
+            let same = syms_of(&t.surface).is_some() && syms_of(&t.surface) == syms_of(&t.norm);
+            same && !t.is_oov && ((is_sep && t.surface.chars().count() == 1) || t.pos == POS[NUMERAL])
+        };
+        if !tiles || !inside.iter().all(|t| numeral_word(t)) {
+            run.bump("modes:segment-shadowed");
+            continue;
+        }
+        // a dictionary word that mixes Arabic and kanji numerals (2万): its characters have no numeral class in common, the
+        // char.def does not "tag it as a numeral" - the plugin reads the class of the whole node.  Counted, not judged.
+        let one_class = |t: &Tok| t.norm == "," || t.norm == "." || t.surface.chars().fold(3, |a, c| a & cat_mask(c)) != 0;
+        if !inside.iter().all(|t| one_class(t)) {
+            run.bump("modes:segment-with-a-mixed-class-word");
+            continue;
+        }
+        let with_units = inside.iter().any(|t| !t.a_split.is_empty() || !t.b_split.is_empty());
+        let seg_text: String = chars[sg.b..sg.e].iter().collect();
+        let class = reference(&syms_of(&seg_text).unwrap());
+        run.bump(match (&class, with_units, inside.len()) {
+            (Class::WF(_), true, 1) => "modes:wf-segment:one-word-with-units",
+            (Class::WF(_), true, _) => "modes:wf-segment:longer-numeral-containing-a-word-with-units",
+            (Class::WF(_), false, _) => "modes:wf-segment:one-character-words-only",
+            (Class::Malformed(_), _, _) => "modes:malformed-segment",
+            (Class::DontCare(_), _, _) => "modes:unusual-segment",
+        });
+        let mut bad: Option<(String, String)> = None;
+        for (m, t) in &obs {
+            let out = match t {
+                Err(p) => {
+                    bad = Some((format!("modes:{}:panic:{}", m, text), format!("analysing {:?} ({}) panics: {}", text, m, p)));
+                    break;
+                }
+                Ok(Err(e)) => {
+                    bad = Some((format!("modes:{}:error:{}", m, text), format!("analysing {:?} ({}) fails: {}", text, m, e)));
+                    break;
+                }
+                Ok(Ok(t)) => t,
+            };
+            let outs: Vec<&Tok> = out.iter().filter(|t| t.begin_c < sg.e && t.end_c > sg.b).collect();
+            let shown = outs.iter().map(|t| format!("{}/{}", t.surface, t.norm)).collect::<Vec<_>>().join(" | ");
+            let one = outs.len() == 1 && outs[0].begin_c == sg.b && outs[0].end_c == sg.e;
+            let how = match *m { "C" => "mode C".to_string(), "A" | "B" => format!("mode {}", m), x => format!("Morpheme::split_into(Mode::{}) of the mode-C morphemes", &x[2..]) };
+            match &class {
+                Class::WF(canon) => {
+                    // the numeral is ONE dictionary word whose stored normalised form already is the decimal rendering
+                    let kept = if inside.len() == 1 && &inside[0].norm == canon { "+stored-form-is-the-rendering" } else { "" };
+                    if !one {
+                        bad = Some((
+                            format!("modes:{}:wf-rejected{}:{}:{}", m, kept, shape(&syms_of(&seg_text).unwrap()), seg_text),
+                            format!("well-formed numeral {:?} (value {}) in {:?}, {}: not one token but {} [surface/normalised form: {}]; un-joined path: {}", seg_text, canon, text, how, outs.len(), shown,
+                                inside.iter().map(|t| format!("{}(A units {}, B units {})", t.surface, t.a_split.len(), t.b_split.len())).collect::<Vec<_>>().join(" ")),
+                        ));
+                    } else if &outs[0].norm != canon {
+                        let kind = rendering_kind(&outs[0].norm, canon);
+                        bad = Some((
+                            format!("modes:{}:{}:{}:{}", m, kind, shape(&syms_of(&seg_text).unwrap()), seg_text),
+                            format!("numeral {:?} in {:?}, {}: normal form {:?}, expected {:?}", seg_text, text, how, outs[0].norm, canon),
+                        ));
+                    }
+                }
+                Class::Malformed(k) => {
+                    if one && (inside.len() > 1 || outs[0].norm != inside[0].norm) {
+                        bad = Some((
+                            format!("modes:{}:{}:{}:{}", m, k, shape(&syms_of(&seg_text).unwrap()), seg_text),
+                            format!("malformed numeral {:?} ({}) in {:?}, {}: joined into one token with normal form {:?}", seg_text, k, text, how, outs[0].norm),
+                        ));
+                    }
+                }
+                Class::DontCare(_) => {}
+            }
+            if bad.is_some() {
+                break;
+            }
+        }
+        if let Some((key, msg)) = bad {
+            run.bump(&format!("oracle-fail:{}", key.split(':').take(3).collect::<Vec<_>>().join(":")));
+            run.fail_with_line(idx, &line, &key, &msg);
+            break;
+        }
+    }
+}
+
+// ------------------------------------------------------------------------------------------------
 
 pub fn run(run: &mut Run) {
     run.rule = "op parse: directed strings (the unit-test numerals and near misses), then EVERY string over the 28-symbol numeral \
@@ -1623,7 +1976,11 @@ C15 parser model as its parser (no parser answers on the line) on the real Resul
 class masks of the buffer and the settings (enableNormalize true, false, or left out = a quarter of the generated normalising cases), compared \
 on ranges, part-of-speech ids and normalised forms of the real plugin's tokens; op seq (only when the tree has the hook verif_parse_seq, see extra.seq_hook_present): 2..4 numeral texts fed to ONE NumericParser \
 with clear() between them, directed sequences for every field clear() resets and generated ones (every tenth generated case), each \
-result must equal verif_parse of that text on a fresh parser and is judged like op parse; non-trivial = at least two \
+result must equal verif_parse of that text on a fresh parser and is judged like op parse; stream modes (25 directed + every twentieth generated case): dictionaries whose \
+numeral WORDS declare A/B split units and word structure (二十, 百万, 二十五, 三百万, ...; one lexicon variant also 10, 0.5, １００ whose stored form already is the rendering), the word alone / inside \
+longer numerals / in value-driven renderings, analysed in modes C, A, B and through Morpheme::split_into(A/B) of the mode-C morphemes (enableNormalize true or left out): every \
+observation must show one token with the decimal rendering (oracle); two lines for the model per case: op pipe (mode C) and op modes (RewriteNumeric.rewrite followed by C09's split model \
+with the declared lexicon rows: ranges and normalised forms of all five observations); non-trivial = at least two \
 symbols (parse) / something was joined (pipeline) / always (seq); distinct by input line".into();
     run.extra.insert("variant_fixes_F1_F6".into(), serde_json::json!(probe_fixes()));
     run.extra.insert("seq_hook_present".into(), serde_json::json!(SEQ_HOOK_PRESENT));
@@ -1631,11 +1988,13 @@ symbols (parse) / something was joined (pipeline) / always (seq); distinct by in
     let thorough = run.opts.thorough;
     let d1 = DIRECTED.len();
     let d2 = d1 + DIRECTED_TEXTS.len() * 4;
-    let d = d2 + DIRECTED_SEQ.len();
+    let d3 = d2 + DIRECTED_SEQ.len();
+    let d = d3 + DIRECTED_MODES.len();
     let exh = if thorough { E4 + E5 } else { E4 };
     let mut cap = FailCap { per_kind: BTreeMap::new() };
     // self-check of the two oracle computations: generated canon vs the reference reading
     let mut dicts: Option<Dicts> = None;
+    let mut mdicts: Option<ModeDicts> = None;
     let mut idx = 0;
     while idx < n {
         if !run.wants(idx) {
@@ -1655,7 +2014,18 @@ symbols (parse) / something was joined (pipeline) / always (seq); distinct by in
                 }
             }
             pipeline_case(run, dicts.as_ref().unwrap(), idx, Some(idx - d1));
-        } else if idx < d {
+        } else if idx >= d3 && idx < d {
+            if mdicts.is_none() {
+                match ModeDicts::new() {
+                    Ok(x) => mdicts = Some(x),
+                    Err(e) => {
+                        run.fail_with_line(idx, "", "modes:setup", &format!("cannot build the dictionary of numeral words with units: {}", e));
+                        return;
+                    }
+                }
+            }
+            modes_case(run, mdicts.as_ref().unwrap(), idx, Some(idx - d3));
+        } else if idx < d3 {
             let texts: Vec<String> = DIRECTED_SEQ[idx - d2].iter().map(|t| t.to_string()).collect();
             seq_case(run, &mut cap, idx, &texts, "directed");
         } else if idx < d + exh {
@@ -1677,6 +2047,17 @@ symbols (parse) / something was joined (pipeline) / always (seq); distinct by in
                     }
                 }
                 pipeline_case(run, dicts.as_ref().unwrap(), idx, None);
+            } else if r % 20 == 7 {
+                if mdicts.is_none() {
+                    match ModeDicts::new() {
+                        Ok(x) => mdicts = Some(x),
+                        Err(e) => {
+                            run.fail_with_line(idx, "", "modes:setup", &format!("cannot build the dictionary of numeral words with units: {}", e));
+                            return;
+                        }
+                    }
+                }
+                modes_case(run, mdicts.as_ref().unwrap(), idx, None);
             } else if r % 10 == 8 {
                 let texts = gen_seq(&mut rng);
                 seq_case(run, &mut cap, idx, &texts, "generated");
